@@ -1232,6 +1232,15 @@ def check_closure(prog, report):
                  construct='refine_axis: closure scope')
     if inner is None:
         return
+    extra = [s for s in cl.body if s is not inner] + [
+        m for m in ast.walk(cl)
+        if isinstance(m, (ast.Break, ast.Continue, ast.Return))]
+    if extra:
+        raise AnalysisError(
+            '%s: the closure loop has an early exit / extra statement '
+            '(`%s`); whether it only fires when no coarser neighbour can '
+            'exist rests on an invariant this analysis does not establish' %
+            (fi.where(extra[0]), text(extra[0])[:60].replace('\n', ' ')))
     nb = text(inner.target)
     iff = [s for s in inner.body if isinstance(s, ast.If)]
     okc = False
